@@ -21,6 +21,7 @@ type Opts struct {
 	SortedDates  int  // 0 = any order, 1 = ascending, 2 = strictly ascending (unique)
 	NearDay      int  // if != 0: dates cluster around this day number
 	NearSpan     int  // cluster radius in days (default 3)
+	KeepTrailingCR bool // do not strip lone CRs at the end of summary lines
 	PlainSummary bool // ASCII-only summaries without tags
 	NoSummary    bool
 	MaxEntries   int // default 5
@@ -197,10 +198,10 @@ func DurationMins(t *rapid.T, o Opts, label string) int {
 // ---------- summaries ----------
 
 var asciiWords = []string{"foo", "bar", "Lunch", "break", "meeting", "with", "Liz", "work", "a", "I", "e-mail", "x_y", "Did", "something", "today.", "(urgent)", "50%", "A&B", "\"quoted\"", "it's", "<b>", "$1", "back\\slash", "end;"}
-var uniWords = []string{"über", "naïve", "日本語", "読む", "Привет", "καλημέρα", "🙂", "é", "İstanbul", "ǅ", "a b", "x\u3000y", " ", "ẞ"}
+var uniWords = []string{"über", "naïve", "日本語", "読む", "Привет", "καλημέρα", "🙂", "é", "İstanbul", "ǅ", "a b", "x\u3000y", "\ufffd", "a\ufffdb", " ", "ẞ"}
 var lookalikes = []string{"1h", "-5m", "+2h30m", "8:00", "8:00 - 9:00", "8:00-?", "2020-01-01", "2020/01/01", "(8h!)", "?", "???", "-", "- 9:00", "<23:00", "1:00>", "12:00am", "!", "()", "24:00", "0m"}
 var tagWords = []string{"#tag", "#Tag", "#TAG", "#work", "#home-office", "#a_b", "#読む", "#ü", "#1", "#tag=v", "#tag=V", "#tag=1-2", "#tag=\"a b\"", "#tag='a b'", "#tag=\"it's\"", "#tag='say \"hi\"'", "#tag=", "#tag=\"\"", "#tag=\"open", "#tag='open", "#a#b", "##c", "#x=y=z", "#work,", "(#work)", "#ticket=891", "#project=\"22/48.3\"", "#Ä=ö"}
-var controlWords = []string{"\x00", "\x1b[31mred\x1b[0m", "a\rb", "\x07", "\x7f", "\u0085", "\ufeff", "\u200b", "\x1b"}
+var controlWords = []string{"\x00", "\x1b[31mred\x1b[0m", "a\rb", "\x07", "\x7f", "\u0085", "\ufeff", "\u200b", "\x1b", "cr\r"}
 var invalidWords = []string{"\xff", "\xc3", "a\xe6\x97", "\xf0\x9f\x99", "\xc0\xaf", "\xed\xa0\x80", "ok\xfe"}
 
 func word(t *rapid.T, o Opts, label string) string {
@@ -227,7 +228,8 @@ func word(t *rapid.T, o Opts, label string) string {
 	return rapid.SampledFrom(asciiWords).Draw(t, label)
 }
 
-// text draws a line of 1..n words; it never contains LF and never ends in CR.
+// text draws a line of 1..n words; it never contains LF. It may end in a lone CR (class
+// Controls only); see StripTrailingCR.
 func text(t *rapid.T, o Opts, label string) string {
 	n := rapid.IntRange(1, 5).Draw(t, label+"N")
 	var sb strings.Builder
@@ -237,11 +239,7 @@ func text(t *rapid.T, o Opts, label string) string {
 		}
 		sb.WriteString(word(t, o, label+"W"))
 	}
-	s := strings.ReplaceAll(sb.String(), "\n", " ")
-	for strings.HasSuffix(s, "\r") {
-		s = s[:len(s)-1] + "."
-	}
-	return s
+	return strings.ReplaceAll(sb.String(), "\n", " ")
 }
 
 // RecordSummaryLine: non-empty, does not start with a blank character (tab or Zs).
@@ -458,8 +456,14 @@ func Doc(t *rapid.T, o Opts) model.Doc {
 	for i := 0; i < n; i++ {
 		d.Records = append(d.Records, Record(t, o, days[i], "r"))
 	}
+	if !o.KeepTrailingCR {
+		TrailingCRExcluded += int64(StripTrailingCR(&d))
+	}
 	return d
 }
+
+// TrailingCRExcluded counts the summary lines from which a trailing CR was stripped.
+var TrailingCRExcluded int64
 
 // ---------- layout ----------
 
@@ -503,4 +507,36 @@ func Layout(t *rapid.T, nRecords int) model.Layout {
 func NonCanonical(d model.Doc, l model.Layout) bool {
 	text, _ := model.Render(d, l)
 	return text != model.CanonRender(d)
+}
+
+// StripTrailingCR removes lone carriage returns from the end of summary lines and reports how
+// many lines were affected. A line ending in CR cannot be written in an LF file at all (the CR
+// would be read as part of a CRLF ending) and does not survive `klog print` in a CRLF file
+// (known finding F10), so the class is excluded by construction and counted.
+func StripTrailingCR(d *model.Doc) int {
+	n := 0
+	fix := func(t *model.Text) {
+		s := string(*t)
+		if strings.HasSuffix(s, "\r") {
+			n++
+			for strings.HasSuffix(s, "\r") {
+				s = s[:len(s)-1]
+			}
+			if model.AllBlank(s) {
+				s += "x"
+			}
+			*t = model.Text(s)
+		}
+	}
+	for ri := range d.Records {
+		for si := range d.Records[ri].Summary {
+			fix(&d.Records[ri].Summary[si])
+		}
+		for ei := range d.Records[ri].Entries {
+			for si := range d.Records[ri].Entries[ei].Summary {
+				fix(&d.Records[ri].Entries[ei].Summary[si])
+			}
+		}
+	}
+	return n
 }
